@@ -798,6 +798,17 @@ def make_text_models():
     def m_new_display(ex, st, args, callee, ty):
         return Adt("fmt::Argument", None, "display", [sstr_of(ex, st, args[0])])
 
+    def m_new_debug(ex, st, args, callee, ty):
+        """`{:?}` of a str / String / Path / PathBuf: the text in double quotes (escapes are not modelled: the text must not
+        contain quotes, backslashes or control characters - stated with the jobs that use it)"""
+        q = BV(32, False, ord('"'))
+        return Adt("fmt::Argument", None, "debug", [SStr([q] + list(sstr_of(ex, st, args[0]).chars) + [q])])
+
+    def m_panic_fmt(ex, st, args, callee, ty):
+        msg = m_format(ex, st, args, callee, ty)
+        ex.last_panic_fmt = msg
+        raise Panic("panic_fmt: " + "".join(chr(c.v) if c.concrete else "?" for c in msg.chars))
+
     def m_arguments_new(ex, st, args, callee, ty):
         t = _obj(ex, st, args[0])
         arr = _obj(ex, st, args[1])
@@ -1036,6 +1047,9 @@ def make_text_models():
         (rx(r"^<(String|str|&str|&String) as PartialEq(<(&str|str|String|&String)>)?>::ne$"), m_string_ne),
         (rx(r"^<String as Deref>::deref$"), m_deref),
         (rx(r"^core::fmt::rt::Argument::<'_>::new_display::<.*>$"), m_new_display),
+        (rx(r"^core::fmt::rt::Argument::<'_>::new_debug::<&*(?:std::path::)?(Path|PathBuf|String|str)>$"), m_new_debug),
+        (rx(r"^(?:std|core)::(?:rt|panicking)::panic_fmt$"), m_panic_fmt),
+        (rx(r"^<(?:errors::)?RvError as ToString>::to_string$"), lambda ex, st, args, callee, ty: SStr([BV(32, False, ord(c)) for c in "<error text>"])),
         (rx(r"^Arguments::<'_>::new::<.*>$"), m_arguments_new),
         (rx(r"^(?:std|alloc)::fmt::format$"), m_format),
         (rx(r"^must_use::<String>$"), m_identity1),
